@@ -817,6 +817,13 @@ func (env *SpecEnv) evalCall(n *SNode, c *ast.CallExpr) Val {
 					o = env
 				}
 				return TV(And(Not(Eq(v.T, TNull)), Not(o.st.isAlloc(v.T)), env.st.isAlloc(v.T)))
+			case "substr":
+				sv := env.evalGo(n, c.Args[0])
+				a, b := env.evalGo(n, c.Args[1]), env.evalGo(n, c.Args[2])
+				if pa, ok := parseIntLit(a.T); ok && pa.Sign() == 0 && b.T.S == app(SInt, "slen", sv.T).S {
+					return Val{K: VTerm, T: sv.T, Typ: types.Typ[types.String]}
+				}
+				return Val{K: VTerm, T: env.x.strSub(sv.T, a.T, b.T), Typ: types.Typ[types.String]}
 			case "disjoint":
 				a, b := env.evalGo(n, c.Args[0]), env.evalGo(n, c.Args[1])
 				if a.K != VSlice || b.K != VSlice {
